@@ -17,3 +17,24 @@ pub enum AnyByte {
     #[regex(b"(?-u:[^a-z])x")] NonLowerX,
     #[token("ab")] Ab,
 }
+
+// self-loops whose class is byte-oriented (every non-ASCII byte, everything but one byte, ...):
+// the unrolled fast loop and its LUT are generated per class
+#[derive(Logos, Debug, PartialEq, Clone)]
+#[logos(utf8 = false)]
+pub enum ByteLoops {
+    #[regex(b"<[^>]*>")] Tag,
+    #[regex(b"(?-u:[\x80-\xff])+")] High,
+    #[regex(b"\"(?-u:[^\"\\\\])*\"")] Str,
+    #[regex(b"[a-z]+")] Word,
+    #[token(b" ")] Sp,
+}
+
+#[derive(Logos, Debug, PartialEq, Clone)]
+#[logos(utf8 = false)]
+pub enum ByteLoops2 {
+    #[regex(b"#(?-u:[^\n])*", allow_greedy = true)] Comment,
+    #[regex(b"(?-u:[\x00-\x1f\x7f-\xff])+")] Ctl,
+    #[regex(b"0(?s-u:.){3}")] Four,
+    #[regex(b"[0-9]+")] Num,
+}
